@@ -149,7 +149,7 @@ def check(case):
         kind = op[0]
         if kind == "call":
             coords = _conformation(rpos, rspec["edges"], op[1])
-            resids = [op[2] + r for r in range(nres)]
+            resids = [op[2] + r for r in range(nres)] if op[2] % 3 else [op[2] + 7 * ((r * 5) % 3) for r in range(nres)]
             mol = build_molecule(rspec, coords=coords, resids=resids)
             args.append((mol, coords.copy(), resids))
             do_call(step, len(args) - 1)
